@@ -7,6 +7,8 @@ theorems below, whose left-hand sides are the comparisons the Go code makes (tie
 of the differential run), and (2) trace validation of the tally/decision functions (Driver/C22).
 -/
 import Gossamer.Lib.C22Inv
+import Gossamer.Lib.C22Possible
+import Gossamer.Lib.C22Example
 namespace Gossamer.C22
 
 /-! ## 1. quorum intersection -/
@@ -200,5 +202,33 @@ theorem C22_safe_of_rule {B : Type} [DecidableEq B] (vs : Voters) (O : BlockOrde
   · subst h
     exact single_round_comparable vs O _ _ _ b1 b2 hmin (hsing r1) (fun _ h => h) (fun _ h => h) h1 h2
   · exact (later r2 r1 b2 b1 h h2 h1).symm
+
+/-- the hypotheses of `C22_safe` are not vacuous: the abstract system reaches a state (Lib/C22Example: 4 voters,
+    one Byzantine, a tree with a fork) in which an honest voter has finalised a block, has left round 0 with an
+    estimate through the `closable` rule and has cast a vote in round 1 -/
+theorem C22_safe_nonvacuous :
+    ∃ s : State (Fin 4), Reachable Example.vs Example.fork4 s ∧ Example.vs.minority ∧
+      (1 : Fin 4) ∈ s.fin 0 ∧ s.round 0 = 1 ∧ s.est 0 0 = some 1 ∧
+      (⟨1, .prevote, 0, 3⟩ : Msg (Fin 4)) ∈ s.sent :=
+  ⟨Example.t15, Example.r15, by decide, by decide, by decide, by decide, by decide⟩
+
+/-! ## 5. the estimate as voters compute it -/
+
+/-- The computed test "is a supermajority for x still possible?" (weight for x + weight that has not voted +
+    as much of the weight against x as may still equivocate — finality-grandpa's `Round.estimate`, and the
+    rule check of the trace validation) is complete for the semantic notion used by `closable`: if ANY
+    extension of the received votes with less than a third equivocating gives x a supermajority, the
+    test says "possible". -/
+theorem C22_possible_complete {B : Type} [DecidableEq B] (vs : Voters) (O : BlockOrder B) (S : Votes B)
+    (x : B) (h : possible vs O S x) : possibleW vs O S x = true :=
+  possibleW_of_possible vs O S x h
+
+/-- Hence a voter that leaves a round with the estimate computed by that test follows the abstract rule. -/
+theorem C22_closable_of_computed {B : Type} [DecidableEq B] (vs : Voters) (O : BlockOrder B)
+    (view : List (Msg B)) (r : Nat) (g e : B)
+    (hg : hasSuper vs O (votesOf view r .prevote) g) (he : O.le e g = true)
+    (hall : ∀ x : B, O.comparable x g → possibleW vs O (votesOf view r .precommit) x = true →
+      O.le x e = true) : closable vs O view r g e :=
+  closable_of_computed vs O view r g e hg he hall
 
 end Gossamer.C22
